@@ -785,7 +785,7 @@ func runAll(w *vt.Writer, full bool) {
 	// 2. multi-key deriver keysets of one primitive family: statuses, primary position, ids
 	count := 200
 	if full {
-		count = 12000
+		count = 40000
 	}
 	byFam := map[string][]dparams{}
 	for _, d := range ds {
@@ -909,7 +909,7 @@ func runAll(w *vt.Writer, full bool) {
 	}
 	nStreams := 40
 	if full {
-		nStreams = 2000
+		nStreams = 6000
 	}
 	for i := 0; i < nStreams; i++ {
 		h, s, k := x.prfOf(i)
